@@ -160,6 +160,18 @@ let handle = function
       (reverse_ite_cases (mk fuel) (nat_of_int 4000) (expr_of e))
   | L [A "chop"; e; b] -> res_sexp (fun l -> L (List.map sexp_of_expr l)) (chop (mk fuel) (expr_of e) (z_a b))
   | L [A "get_bytes"; e; i; n] -> res_sexp sexp_of_expr (get_bytes (mk fuel) (expr_of e) (z_a i) (z_a n))
+  | L [A "track_run"; L batches; L core_names] ->
+    (* constraints are opaque ids with a given name each: ((id name) ...) per add() call; answer: the asserted (name id) list in
+       order and the ids that core_of selects for the given names *)
+    let tbl = Hashtbl.create 16 in
+    let cons = List.map (function L items -> List.map (function L [i; n] -> Hashtbl.replace tbl (string_of_cz (z_a i)) (z_a n); BoolS (z_a i)
+                                                                  | _ -> failwith "track item") items
+                                | _ -> failwith "track batch") batches in
+    let name = function BoolS i -> (try Hashtbl.find tbl (string_of_cz i) with Not_found -> Z0) | _ -> Z0 in
+    let st = List.fold_left (fun st b -> track_add name st b) [] cons in
+    let id_of = function BoolS i -> a_z i | _ -> A "?" in
+    L [L (List.map (fun (n, c) -> L [a_z n; id_of c]) st);
+       L (List.map id_of (core_of st (List.map z_a core_names)))]
   | L [A "repl_run"; L adds; L queries] ->
     (* add the constraints one by one; answer: the actual frontend's constraints, the replacement map, the rewritten queries *)
     let rec go s = function
